@@ -159,11 +159,13 @@ class SymInt:
     with constants / other linear terms and comparisons against constants then never build
     nested z3 terms, and comparisons that are decided by the known variable bounds (interval
     arithmetic) cost no solver query -- long concrete loops over symbolic counters stay cheap."""
-    __slots__ = ("_t", "lin")
+    __slots__ = ("_t", "lin", "digits")
 
     def __init__(self, t, lin=None):
         self._t = t
         self.lin = lin
+        self.digits = None    # (negative?, [digit SymInts, most significant first]) when the
+                              # harness built this value from its decimal digits
         if lin is None and t is not None and _is_var(t):
             self.lin = ({t.get_id(): (t, 1)}, 0)
 
@@ -198,6 +200,10 @@ class SymInt:
                 if op == "r-":
                     return SymInt(None, ({k: (v, -a) for k, (v, a) in terms.items()}, o - b))
                 if op == "*":
+                    if o == 1:
+                        return self
+                    if o == -1:
+                        return -self
                     return self._mklin({k: (v, a * o) for k, (v, a) in terms.items()}, b * o)
             elif type(o) is SymInt and o.lin is not None and op != "*":
                 ot, ob = o.lin
@@ -236,8 +242,15 @@ class SymInt:
     def __neg__(self):
         if self.lin is not None:
             terms, b = self.lin
-            return SymInt(None, ({k: (v, -a) for k, (v, a) in terms.items()}, -b))
-        return _mk(-self.t)
+            r = SymInt(None, ({k: (v, -a) for k, (v, a) in terms.items()}, -b))
+        else:
+            r = _mk(-self.t)
+        if self.digits is not None and isinstance(r, SymInt):
+            neg, ds = self.digits
+            # -0 renders as 0: only keep the annotation when the value cannot be zero
+            if len(ds) > 1 or not (ds[0] == 0):
+                r.digits = (not neg, ds)
+        return r
 
     def __pos__(self): return self
     def __abs__(self): return _mk(z3.If(self.t >= 0, self.t, -self.t))
